@@ -113,7 +113,100 @@ def check_selection(res, E):
             if not sel and mir.is_z(r) and E.feasible(p.cond, z3.Not(r)):
                 fn = mprop.write_cex(res, "output_%s_%d" % (meth, i), p, E, "without a selection an item is excluded")
                 res.violation("mir:selection:none-excludes-" + meth, "Output::%s excludes items although no selection is configured" % meth, fn)
+    n += check_selection_building(res, E, SR)
     res.distinct += n
+    return n
+
+
+_SEL_NATIVE = {}
+
+
+def native_selection(res):
+    if "r" not in _SEL_NATIVE:
+        import nativetest
+        failed, passed, out = nativetest.run_native_test("native_c21", "c21_native_selection_rules")
+        obs = re.findall(r"C21-NATIVE-SEL (.*)", out)
+        res.extra.setdefault("native_replays", []).append({"test": "c21_native_selection_rules", "failed": failed, "observed": obs[:8]})
+        _SEL_NATIVE["r"] = True if failed else (False if passed else None)
+    return _SEL_NATIVE["r"]
+
+
+def check_selection_building(res, E, SR):
+    """Every select-prefix / select-asn value the user gives becomes one rule: push_prefix / push_asn append
+    unconditionally, and update_from_query appends a rule for every parsed value."""
+    n = 0
+    PUSH = r"^Vec::<.*SelectResource.*>::push$|^Vec::<SelectResource>::push$"
+    for meth, variant in (("push_prefix", "Prefix"), ("push_asn", "Asn")):
+        b = E.prog.find(F, "Selection", meth)
+        arg = mir.Opq(variant, "selected_value")
+        ps = E.explore(b, max_visits=3, arg_values={"_2": {(): arg}})
+        for i, p in enumerate(ps):
+            if p.kind != "return":
+                continue
+            n += 1
+            pushes = [e for e in p.events if e.kind == "call" and re.search(PUSH, e.callee or e.name)]
+            good = len(pushes) == 1
+            if good:
+                v = pushes[0].args[1]
+                d = v.get(("disc",))
+                payload = v.get((("v", variant), ("f", 0)))
+                good = d is not None and must(E, p, d == SR.index(variant)) and payload is arg
+            if not good:
+                fn = mprop.write_cex(res, "selection_%s_%d" % (meth, i), p, E,
+                                     "Selection::%s does not append exactly the given value as a %s rule on this path "
+                                     "(%d pushes)" % (meth, variant, len(pushes)))
+                ok = native_selection(res)
+                if ok is False:
+                    res.inconclusive.append("Selection::%s: path without the push did not reproduce natively" % meth)
+                else:
+                    res.violation("mir:selection:%s-drops-value" % meth,
+                                  "Selection::%s can return without appending the rule for the value it was given: the "
+                                  "output then omits payload the user selected%s" % (meth, "; reproduced natively" if ok else ""), fn)
+                break
+    ob = E.prog.find(F, "Output", "update_from_query")
+    ps = E.explore(ob, max_visits=2, nomut=[r"Iterator::next$|::from_str$|::eq$|PartialEq"], inline=[r"Selection::push_(prefix|asn)$"], max_paths=50000)
+    seen_parse = 0
+    bad = False
+    for i, p in enumerate(ps):
+        if p.kind not in ("return", "bound") or bad:
+            continue
+        seg = []
+        segs = [seg]
+        for e in p.events:
+            if e.kind != "call":
+                continue
+            if re.search(r"Iterator::next$", e.name) and "Parse" in (e.callee or ""):
+                seg = []
+                segs.append(seg)
+                continue
+            seg.append(e)
+        for sg in segs[1:]:
+            parsed = [e for e in sg if re.search(r"(Prefix|Asn) as FromStr>::from_str$|(Prefix|Asn)::from_str$", e.callee or e.name)]
+            if not parsed:
+                continue
+            d = disc_of(E, p, parsed[-1])
+            if d is None or not must(E, p, d == 0):
+                continue
+            # the segment is complete if the loop went on (another next follows) or the function returned Ok
+            complete = sg is not segs[-1] or (p.kind == "return" and p.ret.get(("disc",)) is not None and must(E, p, p.ret[("disc",)] == 0))
+            if not complete:
+                continue
+            seen_parse += 1
+            n += 1
+            if not any(re.search(PUSH, e.callee or e.name) for e in sg):
+                fn = mprop.write_cex(res, "query_value_dropped_%d" % i, p, E,
+                                     "a select-prefix / select-asn value was parsed successfully but no rule was appended for it")
+                ok = native_selection(res)
+                if ok is False:
+                    res.inconclusive.append("update_from_query: dropped value did not reproduce natively")
+                else:
+                    res.violation("mir:selection:query-value-dropped",
+                                  "Output::update_from_query can drop a successfully parsed select-prefix / select-asn value "
+                                  "(no rule appended): the output omits payload the user selected%s" % ("; reproduced natively" if ok else ""), fn)
+                bad = True
+                break
+    if seen_parse < 2:
+        res.inconclusive.append("vacuity: update_from_query: only %d parsed-value segments seen" % seen_parse)
     return n
 
 
